@@ -1,0 +1,25 @@
+//go:build verif
+
+package kgo
+
+// Verification contracts (comments only), read by /verif/govc. Compiled only with -tags verif; no code.
+
+// ---- C06 / C05: the aborted-transaction index is sorted per producer, whatever order the broker lists it in ----
+// shouldAbortBatch and trackAbortedPID treat a[pid][0] as the smallest remaining aborted first offset of pid; that
+// is only right if every a[pid] is ascending. buildAborter establishes it for every listing order.
+//
+// Proof shape: the first loop builds one slice per producer by append; distinct producers never share a backing
+// array (each list starts from nil, so its array is allocated by an append of that list) - needed because
+// slices.Sort on one list must not disturb another. The second loop ranges over the map; visited(p) is the ghost
+// set of keys the range has produced so far.
+//@ spec sortedAsc(s []int64) bool = forall i in 0..len(s)-1 :: s[i] <= s[i+1]
+
+//@ func buildAborter(rp *kmsg.FetchResponseTopicPartition) (res aborter)
+//@   prop C06 C05
+//@   ensures [sorted-per-producer] forall p int64 :: in(res, p) ==> sortedAsc(res[p])
+//@   ensures [empty-list] old(len(rp.AbortedTransactions)) == 0 ==> res == nil
+//@   loop 0 invariant forall p int64 :: in(a, p) ==> (len(a[p]) >= 1 && allocated(a[p]))
+//@   loop 0 invariant forall p int64 :: forall q int64 :: (in(a, p) && in(a, q) && p != q) ==> !sameobject(a[p], a[q])
+//@   loop 1 invariant forall p int64 :: in(a, p) ==> len(a[p]) >= 1
+//@   loop 1 invariant forall p int64 :: forall q int64 :: (in(a, p) && in(a, q) && p != q) ==> !sameobject(a[p], a[q])
+//@   loop 1 invariant forall p int64 :: visited(p) ==> (in(a, p) && sortedAsc(a[p]))
